@@ -82,7 +82,7 @@ PROPS = {
  },
  "C09": {
   "module": "Zog.Props.C09",
-  "theorems": COMMON + [P + "C09." + t for t in ["visit_order_is_permutation", "visit_order_same_length", "visit_order_mem", "engine_is_spec_for_every_order", "single_field_order_independent", "full_statement_false"]],
+  "theorems": COMMON + [P + "C09." + t for t in ["visit_order_is_permutation", "visit_order_same_length", "visit_order_mem", "engine_is_spec_for_every_order", "single_field_order_independent", "C09_partial_spec", "C09_partial", "success_order_independent", "full_statement_false"]],
   "streams": [st("order", 2500, 60000), eng(2000, 60000)],
   "trusted_base": ENGINE_TB, "assumptions": ENGINE_ASSUME,
  },
